@@ -17,6 +17,7 @@ section "Size dimensions" for the dimension each one walks):
   sz_wcount         D7  0..65536 tokens per sink
   sz_position       D8  position() after every call across 2^16, 2^17, 2^18
   sz_cap            D9/D10 capacity ladder 1..65536 on three fixed documents
+  sz_carry          D21 carry-over length 1..65538 with consumed > 0; consumed length 0..65536 with a short carry-over
   sz_refills        D11 0..65539 refills inside one token (= recursion depth of next/refill_next at opt-level 0)
   sz_chunks         D12 read sizes of the schedule over the ladder
   sz_readbytes      D13 read_bytes(n), n = 0..65536
@@ -427,6 +428,29 @@ def run_sizes(ctx):
                 if n == 65535:
                     chk = refill_known(chk, lab)
                 R.add("bl.stream\t%s\t%d\t%s" % (hexs(d), cap, sched_of(periodic(p, len(d)))), chk, heavy=(n + 4) // p * n > 1200000)
+    R.run(is_tok)
+
+    # ------------------------------------------------------------------ D21 carry-over length x consumed > 0 (the only case in which
+    # fill_buf's copy_within really moves bytes), and consumed length x a short carry-over
+    R = Runner(ctx, "sz_carry")
+    for c in [x for x in LADDER if x >= 1] + [65538]:
+        for n in sorted(set([max(c - 3, 0), c, min(c + 61, 65535)])):
+            if n + 4 <= c or n > 65535:
+                continue
+            toks = [("T", 7), ("Q" if c % 2 else "U", payload(rng, n, B)), ("I32", -7)]
+            d = seq_bytes(B, toks)
+            ref = ref_of(toks, d)
+            need = need_of(B, d)
+            for cap in sorted(set([max(need, c + 2), max(need, c + 2) + 1, 65539 + 7])):
+                R.add("bl.stream\t%s\t%d\t%d" % (hexs(d), cap, 2 + c),
+                      stream_check(B, "2 bytes consumed, %d bytes of a %d-byte string carried over" % (c, n), d, cap, ref))
+    for k in [x for x in LADDER if x != 1]:
+        toks = filler(k) + [("U64", 0x1122334455667788), ("T", 9)]
+        d = seq_bytes(B, toks)
+        ref = by_construction(B, toks)
+        for cap in (max(k + 5, 10), k + 17, k + 65539):
+            R.add("bl.stream\t%s\t%d\t%d" % (hexs(d), cap, k + 5),
+                  stream_check(B, "%d bytes consumed, 5 bytes of a u64 token carried over" % k, d, cap, ref), heavy=k > 1025)
     R.run(is_tok)
 
     # ------------------------------------------------------------------ D12 read sizes
